@@ -304,4 +304,17 @@ def finish(pid, a, mod, jobs, results, seed, t0, extra=None):
 
 
 if __name__ == '__main__':
-    sys.exit(main())
+    # exit 1 is reserved for reported violations: anything that goes wrong
+    # inside the machinery itself (I/O, a crashed worker, ...) is a harness
+    # error
+    try:
+        rc = main()
+    except SystemExit as e:
+        rc = e.code if e.code in (0, 1, H.HARNESS_ERROR) else H.HARNESS_ERROR
+    except BaseException:
+        import traceback
+        traceback.print_exc()
+        print('HARNESS-ERROR uncaught exception in the check driver')
+        rc = H.HARNESS_ERROR
+    sys.stdout.flush()
+    sys.exit(rc)
